@@ -114,6 +114,10 @@ def stepLine (d : DSt) (ws : List String) : DSt × String :=
     -- an operation whose intermediate state the harness cannot observe (it happened inside a
     -- collector run): executed, output suppressed
     ((stepLine d rest).1, "q")
+  | ["nop"] =>
+    -- a call that is expected to leave every directory as it is (e.g. a collection that stops at its
+    -- first stat failure): the model state is unchanged
+    (d, s!"r=ok g=1 {showSt d.st}")
   | ["cfg", b, l, inst] =>
     match b.toNat?, l.toNat?, natList? inst with
     | some b, some l, some inst =>
